@@ -9,6 +9,7 @@ use alloc::format;
 use alloc::rc::Rc;
 use alloc::string::String;
 use alloc::string::ToString;
+use alloc::vec;
 use alloc::vec::Vec;
 use alloc::collections::btree_map::BTreeMap;
 use regex::Regex;
@@ -236,22 +237,35 @@ impl SmartCalcConfig {
                 });
             }
 
+            /* Every configured spelling of a month is recognised, not only the one kept for printing */
+            let mut month_names: Vec<Vec<String>> = vec![Vec::new(); 12];
+
             for (month_name, month_number) in &language_constant.long_months {
                 match month_list.get_mut((*month_number - 1) as usize) {
-                    Some(month_object) => month_object.long = month_name.to_string(),
+                    Some(month_object) => {
+                        month_object.long = month_name.to_string();
+                        month_names[(*month_number - 1) as usize].push(month_name.to_string());
+                    },
                     None => log::warn!("Month not fetched. {}", month_number)
                 };
             }
 
             for (month_name, month_number) in &language_constant.short_months {
                 match month_list.get_mut((*month_number - 1) as usize) {
-                    Some(month_object) => month_object.short = month_name.to_string(),
+                    Some(month_object) => {
+                        month_object.short = month_name.to_string();
+                        month_names[(*month_number - 1) as usize].push(month_name.to_string());
+                    },
                     None => log::warn!("Month not fetched. {}", month_number)
                 };
             }
 
-            for month in month_list.iter() {
-                let pattern = &format!(r"\b{}\b|\b{}\b", month.long, month.short);
+            for (index, month) in month_list.iter().enumerate() {
+                if month_names[index].is_empty() {
+                    continue;
+                }
+
+                let pattern = &month_names[index].iter().map(|name| format!(r"\b{}\b", name)).collect::<Vec<String>>().join("|");
                 match Regex::new(pattern) {
                     Ok(re) => language_group.push((re, month.clone())),
                     Err(error) => log::error!("Month parser error ({}) {}", month.long, error)
